@@ -90,6 +90,10 @@ fixed("C16","b26eece","pin:huge_array_size","'short t[2147483647];' overflowed t
 
 fixed("C09","118e5f7","pin:macro_name_in_character_constant","with '#define a 5' the character constant 'a' was turned into '5' by macro substitution")
 
+fixed("C02","9843b33","pin:sta_lda_pair_flags","the peephole rule 'STA x / LDA x' removed the reload although a branch tested its flags (which then were those of an earlier CMP)")
+
+fixed("C09","0bbcb57","pin:macro_parameter_in_character_constant","'#define CHK(x) ((x) == 'x')': the parameter was substituted inside the character constant of the body")
+
 # ---------------- recorded, not repaired (each has a pinned witness in harness/src/pins.rs and a
 # generator rule that keeps the random pools out of the family)
 C01=[
